@@ -397,4 +397,27 @@ CHECKS = {
         note="Not decided: that the search succeeds whenever a placement "
              "exists; termination of annealing; the C kernel's internals; "
              "implicit exceptions other than the list.remove discipline."),
+    "C03": dict(
+        technique="CFG dominance / must-pass-through and def-use identity "
+                  "over the router, symbolic normal forms of the neighbour "
+                  "arithmetic",
+        text="Leaves hang on lookup[placements[sink]] of the lookup bound "
+             "together with the returned root, with endpoint / per-core / "
+             "None routes (R1). The repair runs whenever some tree hop is "
+             "not in the machine (R2). A* extends only over a link present "
+             "at the neighbour's end, to unvisited chips, recording (link, "
+             "node); the disconnecting copy attaches a child iff its own "
+             "direction is among links_between(parent, child), else records "
+             "the broken pair; dead chips dropped (R3). neighbour = (node + "
+             "opposite-link vector) mod (width, height) (R4). Reconnection "
+             "targets exclude the orphan's chips recomputed from the live "
+             "tree per orphan; a node the detour crosses is detached from "
+             "its old parent, searched among all tree nodes, before being "
+             "re-attached (R5). Path truncated after its last point on the "
+             "tree; fresh registered nodes (R6). Only "
+             "MachineHasDisconnectedSubregion is raised (R7).",
+        note="Not decided: global acyclicity/connectivity after several "
+             "repairs interact; completeness; optimality. Assumes every "
+             "non-root node has one parent and is registered in the "
+             "lookup."),
 }
